@@ -786,4 +786,50 @@ example :
     let e := mkBin .add x y 0
     (mkBin .mul (mkBin .add e one 1) e 2).ops = exRepeat2 := by decide
 
+
+/-! ## 16. the container layer: a refused insertion is atomic -/
+
+/-- a `ConstraintDict` attached to a model (`m.cd = ConstraintDict()`): its keys and the constraint stored under each -/
+structure ConDict (α : Type) where
+  model : Model α
+  items : List (Nat × Nat)            -- key ↦ constraint identity
+
+/-- `cd[key] = Constraint(expr)`: `ConstraintDict.__setitem__` FIRST refuses an occupied key (ValueError), only then
+registers the constraint with the model and stores it; `Model.__setattr__` does the same for an occupied attribute name -/
+def ConDict.setItem {α : Type} (O : Ops α) (d : ConDict α) (key : Nat) (c : ConSpec) (conAddr : Nat)
+    (varAddrs paramAddrs : List Nat) : ConDict α × Out :=
+  if (d.items.lookup key).isSome then (d, .keyError)          -- refused: nothing touched
+  else (⟨(d.model.register O Model.incFloat c conAddr varAddrs paramAddrs).1, (key, c.id) :: d.items⟩, .ok)
+
+/-- `del cd[key]` -/
+def ConDict.delItem {α : Type} (O : Ops α) (d : ConDict α) (key : Nat) : ConDict α × Out :=
+  match d.items.lookup key with
+  | none => (d, .keyError)
+  | some cid => (⟨(d.model.remove O cid).1, d.items.filter fun p => p.1 != key⟩, .ok)
+
+/-- **refused_insertion_unchanged.** An insertion that is refused (occupied key) leaves the dictionary AND the model —
+reference counts, C objects, the evaluator's registered constraints and variables, the structure flag — exactly as they
+were: no ghost row or column can appear after the next `set_structure`. (A `__setitem__` that registers before it checks
+the key contradicts this theorem.) The same holds for a refused `del`. -/
+theorem refused_insertion_unchanged {α : Type} (O : Ops α) (d : ConDict α) (key : Nat) (c : ConSpec) (conAddr : Nat)
+    (va pa : List Nat) :
+    ((d.setItem O key c conAddr va pa).2 ≠ .ok → (d.setItem O key c conAddr va pa).1 = d) ∧
+    ((d.delItem O key).2 ≠ .ok → (d.delItem O key).1 = d) := by
+  constructor
+  · unfold ConDict.setItem
+    split
+    · intro _; rfl
+    · intro h; exact absurd rfl h
+  · unfold ConDict.delItem
+    split
+    · intro _; rfl
+    · intro h; exact absurd rfl h
+
+/-- and an accepted insertion is exactly one registration (so all registration theorems apply to the container layer) -/
+theorem accepted_insertion_registers {α : Type} (O : Ops α) (d : ConDict α) (key : Nat) (c : ConSpec) (conAddr : Nat)
+    (va pa : List Nat) (h : (d.items.lookup key).isSome = false) :
+    (d.setItem O key c conAddr va pa).1.model = (d.model.register O Model.incFloat c conAddr va pa).1 ∧
+    (d.setItem O key c conAddr va pa).2 = .ok := by
+  simp [ConDict.setItem, h]
+
 end Wntr.Aml
